@@ -2,6 +2,7 @@ package wire
 
 import (
 	"fmt"
+	"os"
 	"path/filepath"
 	"regexp"
 )
@@ -32,7 +33,7 @@ func (m Msg) String() string {
 // IsRequest reports whether the message expects a response.
 func (m Msg) IsRequest() bool {
 	switch m.Op {
-	case "open", "change", "close", "save", "initialized", "config", "configq":
+	case "open", "change", "close", "save", "savefile", "initialized", "config", "configq":
 		return false
 	}
 	return true
@@ -60,6 +61,10 @@ func (s *Session) Do(m Msg, dir string) Reply {
 	case "config":
 		s.Client.SetConfig(m.Text)
 		return s.Notify("workspace/didChangeConfiguration", `{"settings":null}`)
+	case "savefile":
+		// the file gets new content on disk and the server is told (didSave)
+		_ = os.WriteFile(filepath.Join(dir, m.Doc), []byte(m.Text), 0o644)
+		return s.DidSave(uri)
 	case "diagnostics":
 		// not a message: the diagnostics published last for the document, as a response
 		return Reply{Result: s.Client.Last(uri)}
